@@ -586,7 +586,7 @@ class MailboxSet(MailboxSetInterface[MailboxData]):
         else:
             try:
                 maildir = self._layout.get_folder(name, self.delimiter)
-            except FileNotFoundError as exc:
+            except (FileNotFoundError, NotADirectoryError) as exc:
                 raise KeyError(name) from exc
         path = self._layout.get_path(name, self.delimiter)
         async with UidList.with_init(path) as uidl:
